@@ -17,7 +17,7 @@ func init() {
 	register(&Rule{ID: "E-KINDS", Props: []string{"C14", "C18", "C20", "C05"}, Floor: 1,
 		Doc: "every type switch of the evaluator that names at least three of the 14 supported numeric kinds names all of them (decimal128.Decimal, json.Number, float32/64, int8..int64, int, uint8..uint64, uint); where every numeric clause of a switch is a constant return, all of them return the same constants",
 		Run: ruleEKinds})
-	register(&Rule{ID: "E-TODECIMAL-TABLE", Props: []string{"C05", "C14", "C20"}, Floor: 4,
+	register(&Rule{ID: "E-TODECIMAL-TABLE", Props: []string{"C05", "C14", "C20", "C18"}, Floor: 4,
 		Doc: "toDecimal converts each numeric kind with the value-preserving constructor of that kind and nothing else: Decimal unchanged, json.Number through decimal128.Parse of its full text, floats through FromFloat32/64, signed integers through FromInt32/64, unsigned through FromUint32/64",
 		Run: ruleEToDecimalTable})
 	register(&Rule{ID: "E-FLOAT-ORIGIN", Props: []string{"C05", "C14", "C02", "C13", "C20"}, Floor: 3,
@@ -980,6 +980,26 @@ func ruleEConvLossless(p *Program, r *Reporter) {
 				if isCharArith(cv.X) {
 					r.OK(cv.Pos(), key, "character arithmetic on a value already tested to lie in a digit/letter range")
 					continue
+				}
+				// the result of strconv.ParseUint / ParseInt with a constant bit size lies in the range of that size
+				if ex, ok := cv.X.(*ssa.Extract); ok && ex.Index == 0 {
+					if c, ok := ex.Tuple.(*ssa.Call); ok && len(c.Call.Args) == 3 {
+						if bc, isC := c.Call.Args[2].(*ssa.Const); isC && bc.Value != nil {
+							bits := int(bc.Int64())
+							switch calleeFullName(&c.Call) {
+							case "strconv.ParseUint":
+								if bits > 0 && bits < 63 && fitsIn(0, (int64(1)<<bits)-1, db, ds) {
+									r.OK(cv.Pos(), key, fmt.Sprintf("the operand is the result of strconv.ParseUint with bit size %d", bits))
+									continue
+								}
+							case "strconv.ParseInt":
+								if bits > 0 && bits < 64 && fitsIn(-(int64(1)<<(bits-1)), (int64(1)<<(bits-1))-1, db, ds) {
+									r.OK(cv.Pos(), key, fmt.Sprintf("the operand is the result of strconv.ParseInt with bit size %d", bits))
+									continue
+								}
+							}
+						}
+					}
 				}
 				if f := p.indexParserFacts(); f.why == "" && onlyCalledWithin(fn, f.entered) {
 					if cf := f.conv[cv.Pos()]; cf != nil && cf.seen > 0 && fitsIn(cf.lo, cf.hi, db, ds) {
